@@ -35,6 +35,12 @@ def build():
     plan.import_targets(p7, lambda c: c.qual in ("model:_NumbersModel.recalculate_table_data", "model:_NumbersModel.recalculate_row_info"))
     for lem in p7.lemmas:
         plan.lemmas.append(lem)
+    # merged rectangles survive a re-save: the merge map is rebuilt from every anchor and read back completely (C12's contracts, re-verified)
+    from contracts import C12
+    p12 = C12.build()
+    plan.import_targets(p12, lambda c: c.qual in ("model:_NumbersModel.recalculate_merged_cells", "model:_NumbersModel.calculate_merge_cell_ranges"))
+    from contracts.shared_ground import keys_of_emptied_lists_not_memoised
+    plan.ground.append(("keys-of-lists-emptied-on-save-are-not-memoised", keys_of_emptied_lists_not_memoised))
     plan.bounded.append(BoundedStandIn(
         "resave-cycles", "c02_resave.py", [], thorough_args=["--level", "2"], timeout=1500,
         bound="quick: the 45 smallest fixtures under tests/data + 3 documents built through the editing API (values, structure edits, "
